@@ -806,6 +806,8 @@ type hist struct {
 	nImages  int
 	failed   bool
 	noImages bool   // bulk phase of a directed scenario: no crash images (the FS operations are still traced)
+	probeFam string // while the images of a createfam are checked: the family being created ...
+	probeThr int    // ... and its CompactThreshold
 	scripted bool   // a directed scenario: no random deaths
 	forceDie string // die once at the first image whose previous operation has this kind (inside the next op that has one)
 }
@@ -879,6 +881,7 @@ type reopened struct {
 	traceN int
 	path   string
 	sizes  map[string]int64 // fam/f -> size of the table file in the image (taken before cleanup)
+	probe  string           // createfam images: present | created | failed:<error>
 }
 
 func (h *hist) reopenImage(path string) (r reopened) {
@@ -908,6 +911,23 @@ func (h *hist) reopenImage(path string) (r reopened) {
 				r.sizes[fmt.Sprintf("%s/%d", f.name, n)] = fi.Size()
 			} else {
 				r.sizes[fmt.Sprintf("%s/%d", f.name, n)] = -1
+			}
+		}
+	}
+	if h.probeFam != "" {
+		// the family whose creation was in flight: it is there with its option, or it can be created now
+		if st.GetFamily(h.probeFam) != nil {
+			r.probe = "present"
+		} else if f, err := st.CreateFamily(h.probeFam, kv.FamilyOption{Merger: mergerName, CompactThreshold: h.probeThr}); err != nil {
+			r.probe = "failed:" + err.Error()
+		} else {
+			snap := f.GetSnapshot()
+			n := len(snap.GetCurrent().GetAllFiles())
+			snap.Close()
+			if n == 0 {
+				r.probe = "created"
+			} else {
+				r.probe = fmt.Sprintf("failed:created family already has %d files", n)
 			}
 		}
 	}
@@ -1021,7 +1041,20 @@ func (h *hist) checkImages(opDesc string, ops []fsop, before, after string, pris
 				h.c.Fail("fileno-not-fresh", fmt.Sprintf("during %s, image %d: manifest number %d >= next file number %d", opDesc, im.k, r.obs.manifest, r.obs.next))
 			}
 		}
-		h.c.Op(fmt.Sprintf("%s %d", opName, im.k), out)
+		if h.probeFam != "" && opName == "crash" {
+			pr := "-"
+			if r.ok {
+				pr = r.probe
+				if strings.HasPrefix(pr, "failed") {
+					h.c.Fail("family-neither-present-nor-creatable", fmt.Sprintf("during createfam %s, image after %d FS operations (%s>%s): after reopening the family is not there and CreateFamily cannot create it: %s",
+						h.probeFam, im.k, prev, next, strings.TrimPrefix(pr, "failed:")))
+					pr = "failed"
+				}
+			}
+			h.c.Op(fmt.Sprintf("crashf %d %s %d", im.k, h.probeFam, h.probeThr), out+" probe="+pr)
+		} else {
+			h.c.Op(fmt.Sprintf("%s %d", opName, im.k), out)
+		}
 		if jpath != "" {
 			h.junkVariant(opDesc, im, jpath, newNo, before, after)
 			os.RemoveAll(jpath)
@@ -1088,6 +1121,9 @@ func (h *hist) runOp(name string, dieAllowed bool, exec func() (opLine, outPrefi
 	h.sess.ops = nil
 	h.imgs = nil
 	before := h.lastObs
+	if name == "createfam" {
+		h.takeImage(false) // the cut before the first FS operation: the family must still be creatable
+	}
 	var opLine, out string
 	out = h.guard(name, func() string {
 		ol, prefix, withState := exec()
@@ -1229,6 +1265,8 @@ func (h *hist) doOpen() {
 
 func (h *hist) doCreateFamily(name string, thr int) {
 	h.thr[name] = thr
+	h.probeFam, h.probeThr = name, thr
+	defer func() { h.probeFam = "" }()
 	h.runOp("createfam", true, func() (string, string, bool) {
 		_, err := h.store.CreateFamily(name, kv.FamilyOption{Merger: mergerName, CompactThreshold: thr})
 		line := fmt.Sprintf("createfam %s %d", name, thr)
@@ -1861,30 +1899,73 @@ func tornObservation(h *hist) {
 	h.sess.muted = true
 	_ = kv.GetStoreManager().CloseStore(h.root)
 	h.store = nil
-	p := filepath.Join(h.base, "torn")
-	if err := copyDir(h.root, p); err != nil {
-		return
-	}
-	defer os.RemoveAll(p)
-	cur, err := os.ReadFile(filepath.Join(p, version.VerifC01CurrentFileName()))
-	if err != nil {
-		return
-	}
-	mp := filepath.Join(p, string(cur))
-	fi, err := os.Stat(mp)
-	if err != nil || fi.Size() < 2 {
-		return
-	}
-	if err := os.Truncate(mp, fi.Size()-1); err != nil {
-		return
-	}
-	r := h.reopenImage(p)
-	switch {
-	case r.ok:
-		h.c.Branch("torn-observation:reopen-ok")
-	case !exists(mp):
-		h.c.Branch("torn-observation:reopen-error-and-live-manifest-deleted")
-	default:
-		h.c.Branch("torn-observation:reopen-error-manifest-kept")
+	committed := h.lastObs
+	// (ii) content of the last record partly present: one byte cut off
+	// (i)  only the length header of the last record present
+	for _, kind := range []string{"partial-content", "header-only"} {
+		p := filepath.Join(h.base, "torn-"+kind)
+		if err := copyDir(h.root, p); err != nil {
+			return
+		}
+		cur, err := os.ReadFile(filepath.Join(p, version.VerifC01CurrentFileName()))
+		if err != nil {
+			os.RemoveAll(p)
+			return
+		}
+		mp := filepath.Join(p, string(cur))
+		data, err := os.ReadFile(mp)
+		if err != nil || len(data) < 2 {
+			os.RemoveAll(p)
+			return
+		}
+		cut := int64(len(data) - 1)
+		if kind == "header-only" {
+			// walk the entry frames to the last one
+			off, lastHdrEnd := 0, -1
+			for off < len(data) {
+				l, n := binary.Uvarint(data[off:])
+				if n <= 0 {
+					break
+				}
+				lastHdrEnd = off + n
+				off += n + int(l)
+			}
+			if lastHdrEnd < 0 || lastHdrEnd >= len(data) {
+				os.RemoveAll(p)
+				continue
+			}
+			cut = int64(lastHdrEnd)
+		}
+		if err := os.Truncate(mp, cut); err != nil {
+			os.RemoveAll(p)
+			return
+		}
+		r := h.reopenImage(p)
+		switch {
+		case r.ok:
+			lbl := "torn-observation:" + kind + ":reopen-ok"
+			if r.obs.propKey() == committed {
+				lbl += "-content-kept"
+			} else {
+				lbl += "-content-differs"
+			}
+			fresh := true
+			for _, f := range r.obs.fams {
+				for _, n := range append(append([]int64{}, f.files...), f.rollup...) {
+					if n >= r.obs.next {
+						fresh = false
+					}
+				}
+			}
+			if !fresh {
+				lbl += "-file-numbers-not-fresh"
+			}
+			h.c.Branch(lbl)
+		case !exists(mp):
+			h.c.Branch("torn-observation:" + kind + ":reopen-error-and-live-manifest-deleted")
+		default:
+			h.c.Branch("torn-observation:" + kind + ":reopen-error-manifest-kept")
+		}
+		os.RemoveAll(p)
 	}
 }
